@@ -15,7 +15,7 @@ import (
 func init() {
 	register(&Def{
 		ID: "C15",
-		Explanation: "Structural necessary conditions of 'traversal controls only restrict a walk'. The functions are found by role (package traversal: who decrements which Budget counter, who invokes the user's callback, who loads blocks, who leads back to itself), with unexported helpers expanded at their call sites, so the rules do not depend on how the walk is split into functions or what they are called: " +
+		Explanation: "Structural necessary conditions of 'traversal controls only restrict a walk'. The functions are found by role (package traversal: who decrements which Budget counter, who invokes the user's callback, who loads blocks, who leads back to itself), with unexported helpers expanded at their call sites, so the rules do not depend on how the walk is split into functions or what they are called:  One visit per spend: no second invocation of the visit callback within an activation without a new spend, none at all in the functions of the recursion that spend nothing." +
 			"(once) in every recursive walk function every invocation of the user's callback and every recursive descent lies behind a decrement of the node budget (or the no-budget-configured edge), no second decrement is reachable from the first within one activation, and each recursion cycle contains exactly one node-budget spending site; " +
 			"(owners) the controls are touched only in the ways that implement them: a Budget counter is read only by functions that also spend it (or copy the Budget), PastStartAtPath is only ever latched (stored a value known to be true), and insertions into SeenLinks happen only under LinkVisitOnlyOnce behind a failed lookup of the same key; " +
 			"(threshold) every spending site reachable from a recursive walk fails exactly when the counter is <= 0 and otherwise decrements by exactly 1; (linkbudget) every block load in package traversal is behind a link-budget decrement; " +
